@@ -32,13 +32,14 @@ template <size_t N> static void run(unsigned seed) {
     {
       dispenso::SmallVector<L, N> sv; std::vector<L> mv;
       for (int step = 0; step < 40; ++step) {
-        int op = std::rand() % 8;
+        int op = std::rand() % 9;
         if (op <= 2) { int x = std::rand(); sv.push_back(L(x)); mv.push_back(L(x)); }
         else if (op == 3 && !mv.empty()) { size_t i = std::rand() % mv.size(); sv.push_back(sv[i]); mv.push_back(mv[i]); }
         else if (op == 4 && !mv.empty()) { sv.pop_back(); mv.pop_back(); }
         else if (op == 5) { size_t c = std::rand() % 9; sv.resize(c); mv.resize(c); }
         else if (op == 6 && !mv.empty()) { size_t i = std::rand() % mv.size(); sv.erase(sv.begin() + i); mv.erase(mv.begin() + i); }
         else if (op == 7) { size_t c = std::rand() % 12; sv.reserve(c); }
+        else if (op == 8 && !mv.empty()) { size_t i = std::rand() % mv.size(); size_t c = std::rand() % 12; sv.resize(c, sv[i]); mv.resize(c, mv[i]); }   // value aliases an element: valid for std::vector
         if (sv.size() != mv.size() || sv.size() > sv.capacity()) { g_bad++; std::printf("N=%zu: size %zu vs std::vector %zu (capacity %zu)\n", N, sv.size(), mv.size(), sv.capacity()); return; }
         for (size_t i = 0; i < mv.size(); ++i) if (sv[i].v != mv[i].v) { g_bad++; std::printf("N=%zu: element %zu is %d, std::vector has %d\n", N, i, sv[i].v, mv[i].v); return; }
       }
